@@ -36,7 +36,9 @@ Definition obs (s : state) : list Z :=
     Z.of_nat (length (filter has_s2 (stops s)));    (* LeaveGroup requests unanswered *)
     Z.of_nat (length (live_cids s));                (* started, not yet stopped partition consumers *)
     Z.of_nat (length (shutting s));                 (* of which a shutdown() is pending *)
-    generation s; member s ].
+    generation s; member s;
+    (* model-only (not observable without private attributes; used to classify what the monitors see) *)
+    b2z (escaped s); b2z (stopping s); b2z (stop_requested s); b2z (progressb s); b2z (rejoin_needed s) ].
 
 Fixpoint obs_from (s : state) (evs : list event) : list Z :=
   match evs with
